@@ -9,18 +9,22 @@ from checks import C06
 LEVEL = "model_checking"
 M1 = bytes([0xA1, 0xB2, 0xC3, 0xD4])
 M2 = bytes([0xA5, 0xB6, 0xC7, 0xD8])
-KINDS = ["lit-small", "lit-large", "back-small", "back-large", "fwd-small", "fwd-large", "equ-small", "equ-large", "define-large", "set-small"]
+KINDS = ["lit-small", "lit-large", "back-small", "back-large", "fwd-small", "fwd-large", "equ-small", "equ-large", "define-large", "set-small",
+         "set-redef", "odd+lit-small"]
 REF = {"lit-small": "5", "lit-large": "0x1234", "back-small": "bsmall", "back-large": "blarge", "fwd-small": "fsmall", "fwd-large": "flarge",
-       "equ-small": "EQS", "equ-large": "EQL", "define-large": "DFL", "set-small": "STS"}
+       "equ-small": "EQS", "equ-large": "EQL", "define-large": "DFL", "set-small": "STS",
+       "set-redef": "STR", "odd+lit-small": "5"}
 
 
 def program(cpu, line, slot, kind, line2=None, slot2=None, kind2=None, scoped=False, bpa=1):
     k, s, e, pre = slot
     pad = ", 0" * (max(bpa, 4) - 4)          # a marker fills whole address units
     instr = line[:s] + REF[kind] + line[e:]
-    src = [corpus.header(cpu).rstrip("\n"), "EQS equ 6", "EQL equ 0x1230", ".define DFL 0x1238", ".set STS=7",
+    # set-redef: the symbol is small where the instruction uses it and is given a large value further down
+    # odd+...: an odd number of data bytes right before the instruction (alignment padding must happen in both passes)
+    src = [corpus.header(cpu).rstrip("\n"), "EQS equ 6", "EQL equ 0x1230", ".define DFL 0x1238", ".set STS=7", ".set STR=5",
            ".org 0x10", "bsmall:", ".db 0x11, 0x11, 0x11, 0x11", ".org 0x800", "blarge:", ".db 0x12, 0x12, 0x12, 0x12",
-           ".org 0x1000", "L0:"]
+           ".org 0x1000"] + ([".db 0x31, 0x32, 0x33"] if kind.startswith("odd+") else []) + ["L0:"]
     if scoped:
         # a same-named global exists; inside the scope the local definition (later in the file) must win in both passes
         src += [".scope", instr.replace("fsmall", "shadow").replace("flarge", "shadow"), ".ends"]
@@ -30,7 +34,7 @@ def program(cpu, line, slot, kind, line2=None, slot2=None, kind2=None, scoped=Fa
     if line2 is not None:
         k2, s2, e2, p2 = slot2
         src += [line2[:s2] + REF[kind2] + line2[e2:]]
-    src += ["L3:", ".db 0xa5, 0xb6, 0xc7, 0xd8" + pad, "L4:",
+    src += ["L3:", ".db 0xa5, 0xb6, 0xc7, 0xd8" + pad, "L4:", ".set STR=0x1234",
             ".org 0x20", "fsmall:", ".db 0x21, 0x21, 0x21, 0x21", ".org 0x2000", "flarge:", ".db 0x22, 0x22, 0x22, 0x22"]
     return "\n".join(src) + "\n"
 
@@ -43,18 +47,19 @@ def find(img, marker):
     return hits
 
 
-def evaluate(r, bpa):
-    """-> None (consistent) | detail"""
+def evaluate(r, bpa, loose=False):
+    """-> None (consistent) | detail.  loose: the program put an odd number of bytes before the instruction, so on CPUs with
+    more than one byte per address a label may sit inside an address unit; addresses are then compared in units"""
     img, syms = r["image"], {k: v[0][0] for k, v in r["symbols"].items()}
     for lab, marker in (("L1", M1), ("L3", M2)):
         if lab not in syms:
             return "label %s missing from the symbol table" % lab
         hits = find(img, marker)
         want = syms[lab] * bpa
-        if want not in hits:
+        if (want not in hits) if not loose else (not any(h // bpa == syms[lab] for h in hits)):
             return "%s is 0x%x in the symbol table (pass 1) but the bytes that follow it are placed at %s in the output (pass 2)" % (
                 lab, syms[lab], ["0x%x" % (h // bpa) for h in hits] or "no address")
-    if "L2" in syms and syms["L2"] * bpa != syms["L1"] * bpa + max(bpa, 4):
+    if not loose and "L2" in syms and syms["L2"] * bpa != syms["L1"] * bpa + max(bpa, 4):
         return "L2 is 0x%x, expected directly after the 4 marker bytes at L1 (0x%x)" % (syms["L2"], syms["L1"])
     return None
 
@@ -87,7 +92,7 @@ def job(j):
             if r["status"] != 0:
                 continue
             acc += 1
-            d = evaluate(r, bpa)
+            d = evaluate(r, bpa, loose=kind.startswith("odd+"))
             if d:
                 viol.append((line, si, kind, opt, d, src))
         return cpu, {"programs": len(cases), "accepted": acc, "crashed": crashed}, viol
